@@ -179,6 +179,13 @@ func init() {
 	in["runtime.KeepAlive"] = nop
 	in["runtime.SetFinalizer"] = nop
 
+	// --- os/user: name service is outside the model; every lookup fails ---
+	for _, n := range []string{"os/user.Lookup", "os/user.LookupId", "os/user.LookupGroup", "os/user.LookupGroupId", "os/user.Current"} {
+		in[n] = func(ex *Exec, fn *ssa.Function, args []Value) Value {
+			return Tuple{Ptr{}, ex.mkError("user: lookup not available in the model")}
+		}
+	}
+
 	// --- fmt ---
 	in["fmt.Errorf"] = func(ex *Exec, fn *ssa.Function, args []Value) Value {
 		s := ex.format(args[0].(Str), args[1].(Slice))
@@ -470,7 +477,7 @@ func init() {
 	in["errors.As"] = func(ex *Exec, fn *ssa.Function, args []Value) Value {
 		err, target := args[0].(Iface), args[1].(Iface)
 		if target.T == nil {
-			panic(targetPanic{msg: "errors: target cannot be nil"})
+			panic(ex.newPanic(nil, "errors: target cannot be nil"))
 		}
 		elemT := deref(target.T)
 		for depth := 0; depth < 16; depth++ {
